@@ -34,6 +34,8 @@ GNext ==
           \/ ~Sensitive(t) /\ SendEntry(t) /\ Rec(t, "SendEntry", op[t])
           \/ ~Sensitive(t) /\ SendWake(t) /\ Rec(t, "SendWake", op[t])
           \/ SendEmit(t) /\ Rec(t, "SendEmit", op[t])
+          \/ SendFin(t) /\ Rec(t, "SendFin", op[t])
+          \/ FlushEmit(t) /\ Rec(t, "FlushEmit", op[t])
           \/ SendDone(t) /\ Rec(t, "SendDone", op[t])
           \/ (\E n \in ReadSizes : RecvRead(t, n) /\ Rec(t, "RecvRead", n))
           \/ RecvEmpty(t) /\ Rec(t, "RecvEmpty", op[t])
